@@ -126,7 +126,11 @@ def fragmentations(rng, s, n_random=2, per_octet=True):
 
 
 # ------------------------------------------------------------------ independent RFC 7230 serializer (C02)
-TOKEN_NAMES = [b'Foo', b'X-Custom', b'accept', b'ACCEPT-LANGUAGE', b'x-a.b', b'User-Agent', b'Via', b'x_1', b'Cache-Control', b'If-None-Match']
+# the IANA method registry (2024) plus extension tokens; GET/HEAD/TRACE several times so that they stay frequent
+WF_METHODS = [b'GET', b'GET', b'GET', b'HEAD', b'HEAD', b'POST', b'POST', b'PUT', b'DELETE', b'OPTIONS', b'PATCH', b'CONNECT', b'TRACE', b'X-M', b'ACL', b'BASELINE-CONTROL', b'BIND', b'CHECKIN', b'CHECKOUT', b'COPY',
+	b'LABEL', b'LINK', b'LOCK', b'MERGE', b'MKACTIVITY', b'MKCALENDAR', b'MKCOL', b'MKREDIRECTREF', b'MKWORKSPACE', b'MOVE', b'ORDERPATCH', b'PROPFIND', b'PROPPATCH', b'REBIND', b'REPORT', b'SEARCH', b'UNBIND',
+	b'UNCHECKOUT', b'UNLINK', b'UNLOCK', b'UPDATE', b'UPDATEREDIRECTREF', b'VERSION-CONTROL', b'QUERY', b'M-SEARCH', b'x_$.1']
+TOKEN_NAMES = [b'Cookie', b'cookie', b'Foo', b'X-Custom', b'accept', b'ACCEPT-LANGUAGE', b'x-a.b', b'User-Agent', b'Via', b'x_1', b'Cache-Control', b'If-None-Match']
 
 
 def field_value(rng):
@@ -147,7 +151,7 @@ def gen_wf(rng, kind, n=None):
 		ver = rng.choice([(1, 1), (1, 1), (1, 0)])
 		gt = {'version': list(ver)}
 		if kind == 'server':
-			method = rng.choice([b'GET', b'POST', b'PUT', b'DELETE', b'OPTIONS', b'PATCH', b'X-M', b'HEAD', b'CONNECT'])
+			method = rng.choice(WF_METHODS)
 			form = rng.random()
 			hostv = rng.choice([b'h.example', b'h.example:8080', b'[::1]', b'10.0.0.1:81'])
 			path, query = rng.choice([(b'/', b''), (b'/a/b', b''), (b'/a', b'x=1&y=2'), (b'/a/b/', b''), (b'/%7Euser', b'q=a+b'), (b'/x;p=1', b'')])
@@ -166,7 +170,8 @@ def gen_wf(rng, kind, n=None):
 				gt.update(path=path.decode(), query=query.decode())
 			line = method + b' ' + target + b' HTTP/%d.%d' % ver
 			gt.update(method=method.decode(), target=target.hex(), host=hostv.decode())
-			has_body = method not in (b'GET', b'HEAD', b'TRACE', b'CONNECT') or False
+			# a payload on GET/HEAD/TRACE is syntactically valid (RFC 7230 3.3) though unusual: sent now and then
+			has_body = method != b'CONNECT' and (method not in (b'GET', b'HEAD', b'TRACE') or rng.random() < .12)
 		else:
 			code = rng.choice([200, 201, 404, 500, 302, 206, 418, 599, 100, 204, 304])
 			reason = rng.choice([b'OK', b'Not Found', b'Two Words Here', b'X', b"I'm a teapot", b'OK', b'Non-Authoritative Information', b''])  # reason-phrase = *( HTAB / SP / VCHAR / obs-text ): may be empty
@@ -178,6 +183,12 @@ def gen_wf(rng, kind, n=None):
 			fields.append((rng.choice([b'Host', b'host', b'HOST']), hostv))
 		for _ in range(rng.randint(0, 4)):
 			fields.append((rng.choice(TOKEN_NAMES), field_value(rng)))
+		if fields and rng.random() < .35:
+			# a field repeated on the wire (other fields may come in between after the shuffle), name case varied
+			nme = rng.choice(fields)[0]
+			if nme.lower() != b'host':
+				for _ in range(rng.randint(1, 2)):
+					fields.append((rng.choice([nme, nme.lower(), nme.upper()]), field_value(rng)))
 		payload = rbytes(rng, 0, rng.choice([0, 3, 20, 60, 200, 700])) if has_body else b''
 		chunked = has_body and ver == (1, 1) and rng.random() < .5
 		trailers = []
